@@ -11,6 +11,7 @@ YAML text* over the same symbolic document; z3 decides
 for all documents within the bounds, including wrong value kinds, arrays,
 nulls, nested objects and absent fields.
 """
+import os
 import z3
 from common import *
 from treelib import *
@@ -79,8 +80,53 @@ def main():
         tpl = templates.thin(tpl, quota, rnd)
     ck.extra['templates'] = len(tpl)
     self_check(ck)
+    validate_on_repo_rules(ck)
     ck.run_units([(name, rule) for _, name, rule in tpl], run_unit)
     ck.finish('real loader + real solver MIR vs independent reference interpreter over one symbolic document; z3 decides inequality')
+
+
+def validate_on_repo_rules(ck):
+    """translator validation (as Serval's authors did): the repository's own test rules and their example documents are
+    pushed through the executor with the document made concrete; the verdict of the real solver MIR under the callee
+    models must equal the native verdict, for the plain rule and for every switch combination"""
+    import glob
+    from mirsym.doc import ConcDoc
+    br = ck.bridge()
+    prog = ck.program()
+    imp = models_tau.TreeImporter(prog)
+    n = 0
+    for path in sorted(glob.glob(os.path.join(artifacts.REPO, 'tests', 'rules', '*.yml'))):
+        yaml = open(path).read()
+        base = br.call(cmd='examples', yaml=yaml, opts=None)
+        if not base.get('ok'):
+            continue
+        for opts in (None, [True, True, True, True], [False, True, False, True], [True, False, True, False]):
+            r = br.call(cmd='load', yaml=yaml, opts=opts)
+            if not r.get('ok'):
+                continue
+            e = imp.expr(r['expr'])
+            ids = imp.identifiers(r['idents'])
+            for exm in base['examples']:
+                uni = engine.Universe()
+                ex = ck.new_engine(prog, uni=uni)
+                d = ConcDoc(exm['doc']['$obj'])
+                ex.frozen_below = next_oid()
+                try:
+                    res = ex.explore('solve_expression', [Ref(Cont([e]), 0), Ref(Cont([ids]), 0), Ref(Cont([d]), 0)])
+                except Unsupported as err:
+                    ck.extra.setdefault('repo_rules_skipped', []).append('%s: %s' % (os.path.basename(path), str(err)[:80]))
+                    continue
+                if len(res) != 1 or res[0].kind != 'return' or not isinstance(res[0].value, Adt):
+                    ck.inconclusive.append('translator validation: %s: executor did not produce one concrete result (%d paths)' % (os.path.basename(path), len(res)))
+                    continue
+                got = res[0].value.vname == 'True'
+                nat = br.call(cmd='eval', yaml=yaml, opts=opts, doc=exm['doc'], mode='object').get('verdict')
+                n += 1
+                if got != nat:
+                    ck.inconclusive.append('translator validation: %s opts=%s doc=%s: executor %s, native %s' % (
+                        os.path.basename(path), opts, json.dumps(exm['doc'])[:120], got, nat))
+    ck.replays_ok += n
+    ck.extra['repo_rule_examples_validated'] = n
 
 
 def self_check(ck):
